@@ -48,6 +48,7 @@ impl Registry for GatedRegistry {
 
 enum Svc {
     Cache(LspService<Backend<Cache>>),
+    Faulty(LspService<Backend<crate::ops_fetch::FaultyStorer>>),
 }
 
 pub struct Session {
@@ -66,6 +67,7 @@ pub struct Session {
 pub struct LspState {
     pub s: Option<Session>,
     pub config_answer: String,
+    pub lock: Option<rusqlite::Connection>,
 }
 
 fn resolvers(gates: &Gates) -> HashMap<RegistryType, PackageResolver> {
@@ -123,21 +125,28 @@ impl Session {
     /// send one request/notification; client-bound traffic is drained concurrently (the server's
     /// channel to the client is bounded, a handler blocks on it otherwise)
     fn call(&mut self, req: Request) -> Option<Response> {
-        let Svc::Cache(svc) = &mut self.svc;
         let answer = self.config_answer.clone();
         let socket = &mut self.socket;
         let pending = &mut self.pending;
-        self.rt.block_on(async {
-            let fut = svc.call(req);
-            tokio::pin!(fut);
-            loop {
-                let msg = tokio::select! {
-                    r = &mut fut => break r.unwrap(),
-                    Some(msg) = socket.next() => msg,
-                };
-                handle_msg(socket, msg, &answer, pending).await;
-            }
-        })
+        macro_rules! drive {
+            ($svc:expr) => {
+                self.rt.block_on(async {
+                    let fut = $svc.call(req);
+                    tokio::pin!(fut);
+                    loop {
+                        let msg = tokio::select! {
+                            r = &mut fut => break r.unwrap(),
+                            Some(msg) = socket.next() => msg,
+                        };
+                        handle_msg(socket, msg, &answer, pending).await;
+                    }
+                })
+            };
+        }
+        match &mut self.svc {
+            Svc::Cache(svc) => drive!(svc),
+            Svc::Faulty(svc) => drive!(svc),
+        }
     }
 
     /// run until nothing moves: drain client-bound traffic, answer configuration requests, let timers fire
@@ -173,8 +182,11 @@ impl Session {
 }
 
 pub fn dispatch(st: &mut LspState, op: &str, f: &[String]) -> Option<String> {
-    if !op.starts_with("l.") {
+    if !op.starts_with("l.") && !op.starts_with("fs.") {
         return None;
+    }
+    if st.s.is_none() && matches!(op, "l.now" | "l.cache" | "l.tags" | "l.init" | "l.open" | "l.change" | "l.close" | "l.action" | "l.reply" | "l.settle" | "l.dump") {
+        return Some("nosession".into());
     }
     Some(match op {
         "l.config" => {
@@ -194,6 +206,55 @@ pub fn dispatch(st: &mut LspState, op: &str, f: &[String]) -> Option<String> {
             let (svc, socket) = { let _g = rt.enter(); LspService::build(move |client| Backend::build(client, c2.clone(), res)).finish() };
             st.s = Some(Session { rt, svc: Svc::Cache(svc), socket, pending: Vec::new(), gates, cache: Some(cache), _dir: Some(dir), config_answer: st.config_answer.clone(), next_id: 1 });
             "ok".into()
+        }
+        // l.startprod <xdg_data_home> : the PRODUCTION constructor Backend::new under a controlled environment
+        "l.startprod" => {
+            st.s = None;
+            version_lsp::verif::set_now_ms(Some(1000));
+            unsafe { std::env::set_var("XDG_DATA_HOME", &f[0]); }
+            unsafe { std::env::set_var("GITHUB_API_BASE_URL", "http://127.0.0.1:9"); }
+            let rt = tokio::runtime::Builder::new_current_thread().enable_all().start_paused(true).build().unwrap();
+            let gates: Gates = Arc::new(Mutex::new(Vec::new()));
+            let (svc, socket) = { let _g = rt.enter(); LspService::new(Backend::new) };
+            st.s = Some(Session { rt, svc: Svc::Cache(svc), socket, pending: Vec::new(), gates, cache: None, _dir: None, config_answer: st.config_answer.clone(), next_id: 1 });
+            "ok".into()
+        }
+        // l.startfaulty <ip> <faults e.g. "L:lodash,V:*"> : Backend::build over a fault-injecting storer around a real Cache
+        "l.startfaulty" => {
+            st.s = None;
+            version_lsp::verif::set_now_ms(Some(1000));
+            let rt = tokio::runtime::Builder::new_current_thread().enable_all().start_paused(true).build().unwrap();
+            let dir = tempfile::Builder::new().prefix("vlsp-verif-").tempdir().expect("tempdir");
+            let cache = Arc::new(Cache::new(&dir.path().join("versions.db"), 86_400_000, f[0] == "T").expect("cache"));
+            let mut faults = std::collections::HashSet::new();
+            for item in f[1].split(',').filter(|x| !x.is_empty()) {
+                let (site, name) = item.split_once(':').unwrap();
+                faults.insert((name.to_string(), site.chars().next().unwrap()));
+            }
+            let storer = Arc::new(crate::ops_fetch::FaultyStorer { inner: cache.clone(), faults, log: Mutex::new(vec![]) });
+            let gates: Gates = Arc::new(Mutex::new(Vec::new()));
+            let res = resolvers(&gates);
+            let (svc, socket) = { let _g = rt.enter(); LspService::build(move |client| Backend::build(client, storer.clone(), res)).finish() };
+            st.s = Some(Session { rt, svc: Svc::Faulty(svc), socket, pending: Vec::new(), gates, cache: Some(cache), _dir: Some(dir), config_answer: st.config_answer.clone(), next_id: 1 });
+            "ok".into()
+        }
+        // l.startfile <path> : Backend::build over Cache::new(<path>) — for damaged database files; "E:…" if it cannot be opened
+        "l.startfile" => {
+            st.s = None;
+            version_lsp::verif::set_now_ms(Some(1000));
+            let rt = tokio::runtime::Builder::new_current_thread().enable_all().start_paused(true).build().unwrap();
+            match Cache::new(std::path::Path::new(&f[0]), 86_400_000, true) {
+                Err(e) => format!("open-{}", crate::ops_cache::err_str(&e)),
+                Ok(c) => {
+                    let cache = Arc::new(c);
+                    let gates: Gates = Arc::new(Mutex::new(Vec::new()));
+                    let res = resolvers(&gates);
+                    let c2 = cache.clone();
+                    let (svc, socket) = { let _g = rt.enter(); LspService::build(move |client| Backend::build(client, c2.clone(), res)).finish() };
+                    st.s = Some(Session { rt, svc: Svc::Cache(svc), socket, pending: Vec::new(), gates, cache: Some(cache), _dir: None, config_answer: st.config_answer.clone(), next_id: 1 });
+                    "ok".into()
+                }
+            }
         }
         "l.now" => {
             version_lsp::verif::set_now_ms(Some(f[0].parse().unwrap()));
@@ -314,6 +375,58 @@ pub fn dispatch(st: &mut LspState, op: &str, f: &[String]) -> Option<String> {
             ps.iter().map(crate::ops_action::pkg_str).collect::<Vec<_>>().join(";")
         }
         "l.dump" => crate::ops_cache::dump(&st.s.as_ref().unwrap()._dir.as_ref().unwrap().path().join("versions.db")),
+        "l.stop" => { st.s = None; "ok".into() }
+        "l.dumpfile" => crate::ops_cache::dump(std::path::Path::new(&f[0])),
+        // fs.mkdir <path> | fs.mkfile <path> <content> | fs.rm <path>
+        "fs.mkdir" => match std::fs::create_dir_all(&f[0]) { Ok(_) => "ok".into(), Err(e) => format!("E:{:?}", e.kind()) },
+        "fs.mkfile" => match std::fs::write(&f[0], f[1].as_bytes()) { Ok(_) => "ok".into(), Err(e) => format!("E:{:?}", e.kind()) },
+        "fs.rm" => {
+            let p = std::path::Path::new(&f[0]);
+            let r = if p.is_dir() { std::fs::remove_dir_all(p) } else { std::fs::remove_file(p) };
+            match r { Ok(_) => "ok".into(), Err(e) => format!("E:{:?}", e.kind()) }
+        }
+        "fs.copy" => match std::fs::copy(&f[0], &f[1]) { Ok(n) => n.to_string(), Err(_) => "-".into() },
+        // fs.lock <path> : another connection takes the write lock and keeps it; fs.unlock releases it
+        "fs.lock" => {
+            let c = rusqlite::Connection::open(&f[0]).expect("open for lock");
+            let r = c.execute_batch(if f.len() > 1 && f[1] == "exclusive" { "PRAGMA locking_mode=EXCLUSIVE; BEGIN EXCLUSIVE;" } else { "BEGIN IMMEDIATE;" });
+            st.lock = Some(c);
+            match r { Ok(_) => "ok".into(), Err(e) => format!("E:{e}") }
+        }
+        "fs.unlock" => { st.lock = None; "ok".into() }
+        "fs.size" => std::fs::metadata(&f[0]).map(|m| m.len().to_string()).unwrap_or_else(|_| "-".into()),
+        // fs.damage <path> truncate <n> | overwrite <from> <len> <seed> <zero|ff|rand>
+        "fs.damage" => {
+            use std::io::{Seek, SeekFrom, Write};
+            let path = std::path::Path::new(&f[0]);
+            match f[1].as_str() {
+                "truncate" => {
+                    let n: u64 = f[2].parse().unwrap();
+                    if std::fs::metadata(path).map(|m| m.len()).unwrap_or(0) <= n { return Some("skip".into()); }
+                    match std::fs::OpenOptions::new().write(true).open(path).and_then(|fh| fh.set_len(n)) { Ok(_) => "ok".into(), Err(e) => format!("E:{:?}", e.kind()) }
+                }
+                "overwrite" => {
+                    let from: u64 = f[2].parse().unwrap();
+                    let len: usize = f[3].parse().unwrap();
+                    let mut x: u64 = f[4].parse::<u64>().unwrap() | 1;
+                    let buf: Vec<u8> = (0..len).map(|_| match f[5].as_str() {
+                        "zero" => 0u8, "ff" => 0xffu8,
+                        _ => { x ^= x << 13; x ^= x >> 7; x ^= x << 17; (x & 0xff) as u8 }
+                    }).collect();
+                    let size = std::fs::metadata(path).map(|m| m.len()).unwrap_or(0);
+                    if from >= size { return Some("skip".into()); }
+                    let buf = &buf[..buf.len().min((size - from) as usize)];
+                    match std::fs::OpenOptions::new().write(true).open(path).and_then(|mut fh| { fh.seek(SeekFrom::Start(from))?; fh.write_all(buf) }) { Ok(_) => "ok".into(), Err(e) => format!("E:{:?}", e.kind()) }
+                }
+                _ => "bad-op".into(),
+            }
+        }
+        // data-directory rule under a controlled environment
+        "l.datadir" => {
+            if f[0] == "-" { unsafe { std::env::remove_var("XDG_DATA_HOME"); } } else { unsafe { std::env::set_var("XDG_DATA_HOME", &f[0][1..]); } }
+            if f[1] != "-" { unsafe { std::env::set_var("HOME", &f[1][1..]); } }
+            format!("{} {} {}", hex(&version_lsp::config::data_dir().to_string_lossy()), hex(&version_lsp::config::db_path().to_string_lossy()), hex(&version_lsp::config::log_path().to_string_lossy()))
+        }
         _ => return None,
     })
 }
